@@ -148,6 +148,29 @@ def r19_1(ctx):
         if not any(op == 'Gt' and shift_mask(a) is not None and shift_mask(a)[1] == 24 and const_val(b2) == 0 for op, a, b2, si in gs):
             okg = False
     ctx.check(okg, R, key + '|a>0 guard', wp.loc(), 'division only under a > 0', 'a colour is divided by alpha without the a > 0 guard (fully transparent pixels must pass through)')
+    # ... and by nothing that depends on other pixels: the exported bytes of a pixel are a function of that pixel alone
+    per_pixel = True
+    foreign = []
+    if pixel is not None:
+        import dt as _dt
+        loops = an.cfg.loops()
+        for bi in divs:
+            for op, a, b2, si in normalized_guards(ctx, wp, bi):
+                if not any(si in bl and bi in bl for bl in loops.values()):
+                    continue      # a test outside the pixel loop (none today) is not a per-pixel decision
+                for side in (a, b2):
+                    if side is None or side[0] in ('const', 'cnamed'):
+                        continue
+                    sm = shift_mask(side)
+                    if sm is not None and sm[0] == pixel:
+                        continue
+                    deps = _dt.direct_deps(an, side)
+                    if pixel in deps and not any(isinstance(x, tuple) and x and x[0] in ('phi', 'mem') and x != pixel and x not in _dt.direct_deps(an, pixel) for x in deps):
+                        continue
+                    per_pixel = False
+                    foreign.append(fmt(wp, side)[:80])
+    ctx.check(per_pixel, R, key + '|per-pixel decision', wp.loc(), 'whether a pixel is un-premultiplied depends on that pixel only',
+              'whether a pixel is un-premultiplied depends on %s, i.e. on something other than the pixel itself (e.g. a whole-surface "is opaque" shortcut): translucent pixels are exported premultiplied when the shortcut misfires' % sorted(set(foreign)))
     # iteration source: the pixel comes from next() of into_iter(as_ref(self.buf))
     okb = False
     if pixel is not None:
